@@ -71,6 +71,9 @@ type RBT struct {
 	vlogInvalid bool
 	dirty       bool
 	stages      []arena.MemDBCheckpoint
+	// lastCheckpoint is the newest checkpoint handed out by Checkpoint() (the zero value protects nothing).
+	// Values at or before it must not be overwritten in place, otherwise RevertToCheckpoint cannot restore them.
+	lastCheckpoint arena.MemDBCheckpoint
 
 	// The lastTraversedNode stores addr in uint64 of the last traversed node.
 	// Compare to atomic.Pointer, atomic.Uint64 can avoid allocation so it's more efficient.
@@ -193,6 +196,7 @@ func (db *RBT) Cleanup(h int) {
 		if !curr.IsSamePosition(cp) {
 			db.vlog.RevertToCheckpoint(db, cp)
 			db.vlog.Truncate(cp)
+			db.truncateLastCheckpoint(cp)
 		}
 	}
 	db.stages = db.stages[:h-1]
@@ -202,13 +206,22 @@ func (db *RBT) Cleanup(h int) {
 // Checkpoint returns a checkpoint of RBT.
 func (db *RBT) Checkpoint() *arena.MemDBCheckpoint {
 	cp := db.vlog.Checkpoint()
+	db.lastCheckpoint = cp
 	return &cp
+}
+
+// truncateLastCheckpoint keeps lastCheckpoint inside the vlog after it has been truncated to cp.
+func (db *RBT) truncateLastCheckpoint(cp *arena.MemDBCheckpoint) {
+	if cp.LessThan(&db.lastCheckpoint) {
+		db.lastCheckpoint = *cp
+	}
 }
 
 // RevertToCheckpoint reverts the RBT to the checkpoint.
 func (db *RBT) RevertToCheckpoint(cp *arena.MemDBCheckpoint) {
 	db.vlog.RevertToCheckpoint(db, cp)
 	db.vlog.Truncate(cp)
+	db.truncateLastCheckpoint(cp)
 	db.vlog.OnMemChange()
 }
 
@@ -216,6 +229,7 @@ func (db *RBT) RevertToCheckpoint(cp *arena.MemDBCheckpoint) {
 func (db *RBT) Reset() {
 	db.root = arena.NullAddr
 	db.stages = db.stages[:0]
+	db.lastCheckpoint = arena.MemDBCheckpoint{}
 	db.dirty = false
 	db.vlogInvalid = false
 	db.size = 0
@@ -388,7 +402,7 @@ func (db *RBT) setValue(x MemdbNodeAddr, value []byte) {
 		oldVal = db.vlog.GetValue(x.vptr)
 	}
 
-	if len(oldVal) > 0 && db.vlog.CanModify(activeCp, x.vptr) {
+	if len(oldVal) > 0 && db.vlog.CanModify(activeCp, x.vptr) && db.vlog.CanModify(&db.lastCheckpoint, x.vptr) {
 		// For easier to implement, we only consider this case.
 		// It is the most common usage in TiDB's transaction buffers.
 		if len(oldVal) == len(value) {
